@@ -27,6 +27,8 @@ func main() {
 	switch os.Args[1] {
 	case "rslquery":
 		err = fam.RSLQuery(*scn, *out, *seed, *n)
+	case "metadata":
+		err = fam.Metadata(*scn, *out, *seed)
 	case "verify":
 		err = fam.Verify(*scn, *aux, *out, *seed, *n)
 	case "delegations":
